@@ -2,10 +2,12 @@ package config
 
 import (
 	"fmt"
+	"math"
 	"net"
 	"os"
 	"path"
 	"strings"
+	"time"
 
 	"gopkg.in/yaml.v3"
 )
@@ -243,6 +245,42 @@ func (c *Config) Validate() error {
 	}
 	if err := c.validateListeners(); err != nil {
 		return err
+	}
+	if err := c.validateDurations(); err != nil {
+		return err
+	}
+	return nil
+}
+
+// maxSeconds is the longest time, in seconds, that a time.Duration can hold. A larger value wraps
+// around when it is converted: a negative ticker interval panics, a negative timeout means none.
+const maxSeconds = math.MaxInt64 / int64(time.Second)
+
+// validateDurations checks that every setting given in seconds fits a time.Duration
+func (c *Config) validateDurations() error {
+	for _, f := range []struct {
+		name    string
+		seconds int
+	}{
+		{"server read timeout", c.Server.Timeouts.Read},
+		{"server write timeout", c.Server.Timeouts.Write},
+		{"server idle timeout", c.Server.Timeouts.Idle},
+		{"server handler timeout", c.Server.Timeouts.Handler},
+		{"server shutdown timeout", c.Server.Timeouts.Shutdown},
+		{"backend dial timeout", c.Server.Timeouts.BackendDial},
+		{"backend read timeout", c.Server.Timeouts.BackendRead},
+		{"backend idle timeout", c.Server.Timeouts.BackendIdle},
+		{"active health check interval", c.HealthChecks.Active.Interval},
+		{"active health check timeout", c.HealthChecks.Active.Timeout},
+		{"passive health check unhealthy timeout", c.HealthChecks.Passive.UnhealthyTimeout},
+		{"websocket pool idle_timeout_seconds", c.LoadBalancer.WebSocketPool.IdleTimeoutSeconds},
+		{"rate limit refill rate", c.RateLimit.RefillRate},
+		{"circuit breaker interval", c.CircuitBreaker.IntervalSeconds},
+		{"circuit breaker timeout", c.CircuitBreaker.TimeoutSeconds},
+	} {
+		if int64(f.seconds) > maxSeconds {
+			return fmt.Errorf("%s is too large (got %d seconds, at most %d)", f.name, f.seconds, maxSeconds)
+		}
 	}
 	return nil
 }
